@@ -326,6 +326,9 @@ class Interp:
                 if det is not None:
                     if det.publication != 3000 + len(self.steps) or (details and (det.publisher != 4711 or det.publisher_authid != "joe" or det.topic != "com.example.full.topic")):
                         self.fail("details-content-differs", repr(det))
+                    # EventDetails.subscription is documented as "the (client side) subscription object on which this event is delivered"
+                    if h.sub is not None and det.subscription is not h.sub:
+                        self.fail("details-subscription-is-not-the-handlers-own", "handler %d got the Subscription object of another handler in its event details" % h.hid)
                 if norm(list(a)) != norm(list(args)) or norm(k_) != norm(want_kw):
                     extra = sorted(set(k_) - set(want_kw))
                     self.fail("handler-payload-differs" + ("|extra-kwargs-leaked" if extra else ""), "handler %d (%s) got args=%r kwargs=%r, published args=%r kwargs=%r" % (
